@@ -45,6 +45,13 @@ class Conversions(Contract):
             for via in ('like_int_ref', 'resize_norestore', 'template_int_ref'):
                 for shape in ([], [2]):
                     yield dict(fmt=[s, n, f], shape=shape, vdtype='float', via=via)
+        # objects DERIVED from other objects by a real library operation (transpose, reversed view, element, flatten, shallow copy)
+        for (s, n, f) in [(True, 4, -1), (True, 8, 3), (False, 3, 0)]:
+            for der, shape in (('T', [2, 2]), ('T', [2, 3]), ('rev', [2]), ('item', []), ('flatten', [2]), ('copy', [2]), ('copy', [])):
+                for vdtype in ('float', 'int'):
+                    if vdtype == 'int' and f > 0:
+                        continue
+                    yield dict(fmt=[s, n, f], shape=shape, vdtype=vdtype, der=der)
         # 2-d arrays in C and in Fortran (column-major / transposed) memory order: every position reads its own code
         for (s, n, f) in [(True, 4, -1), (False, 3, 0), (True, 8, 3), (True, 8, -2)]:
             for shape in ([2, 2], [2, 3]):
@@ -68,6 +75,8 @@ class Conversions(Contract):
             kind, dt = cfg['built_from'].split(':')
             car = [P.npscalar(k, dt) for k in inp['k']] if kind == 'nplist' else P.arr(inp['k'], dtype=dt, shape=(2,))
             x = P.Fxp(car, s, n, f)
+        elif cfg.get('der'):
+            x = derived_fxp(P, cfg['der'], s, n, f, inp['c'], tuple(cfg['shape']), vdtype=float if cfg['vdtype'] == 'float' else int)
         elif cfg.get('via'):
             k0 = len(inp['c'])
             ref = make_fxp(P, s, n, 0, codes=[0] * k0, shape=tuple(cfg['shape']), vdtype=int)
@@ -152,6 +161,13 @@ class Comparisons(Contract):
                     yield dict(x=list(x), y=list(y), shape=[2] if (i + j) % 2 else [], other='fxp', xint=x[2] <= 0, yint=y[2] <= 0)
             yield dict(x=list(x), y=None, shape=[], other='float')
             yield dict(x=list(x), y=None, shape=[2], other='int')
+            # operands DERIVED from other objects first (transposed, reversed view, element, flattened, shallow copy): stale caches / layouts
+            if i % 2 == 0:
+                y2 = fm[(i + 3) % len(fm)]
+                for der, shape in (('T', [2, 2]), ('rev', [2]), ('item', []), ('flatten', [2]), ('copy', [2])):
+                    yield dict(x=list(x), y=list(y2), shape=shape, other='fxp', xder=der, xint=(x[2] <= 0 and der in ('T', 'item')))
+                    yield dict(x=list(y2), y=list(x), shape=shape, other='fxp', yder=der)
+                    yield dict(x=list(x), y=None, shape=shape, other='float', xder=der)
             if x[2] <= 0:
                 yield dict(x=list(x), y=None, shape=[2], other='float', xint=True)
                 yield dict(x=list(x), y=None, shape=[], other='int', xint=True)
@@ -170,10 +186,16 @@ class Comparisons(Contract):
 
     def run(self, cfg, P, inp):
         s, n, f = cfg['x']
-        x = make_fxp(P, s, n, f, codes=inp['cx'], shape=tuple(cfg['shape']), vdtype=int if cfg.get('xint') else float)
+        if cfg.get('xder'):
+            x = derived_fxp(P, cfg['xder'], s, n, f, inp['cx'], tuple(cfg['shape']), vdtype=int if cfg.get('xint') else float)
+        else:
+            x = make_fxp(P, s, n, f, codes=inp['cx'], shape=tuple(cfg['shape']), vdtype=int if cfg.get('xint') else float)
         if cfg['other'] == 'fxp':
             s2, n2, f2 = cfg['y']
-            y = make_fxp(P, s2, n2, f2, codes=inp['cy'], shape=tuple(cfg['shape']), vdtype=int if cfg.get('yint') else float)
+            if cfg.get('yder'):
+                y = derived_fxp(P, cfg['yder'], s2, n2, f2, inp['cy'], tuple(cfg['shape']), vdtype=int if cfg.get('yint') else float)
+            else:
+                y = make_fxp(P, s2, n2, f2, codes=inp['cy'], shape=tuple(cfg['shape']), vdtype=int if cfg.get('yint') else float)
         else:
             y = inp['num']
         return {'lt': x < y, 'le': x <= y, 'eq': x == y, 'ne': x != y, 'gt': x > y, 'ge': x >= y}
